@@ -34,7 +34,7 @@ for m in sorted(glob.glob('/verif/seeded/*/meta.json')):
 out.append("")
 out.append("%d of %d seeded changes are caught by the check of the property they were aimed at."%(own,n))
 out.append("")
-out.append("""**First-pass misses and what they led to.** The table shows the state after strengthening. When the first round (ids ending in -a/-b) arrived, these were *not* yet caught by the rules that existed and led to new clauses, not to special cases: C07-b → ORD-4 "no acknowledgement left queued on an error return"; C02-b → ORD-4 "a packet is kept for retry only after a durable record change"; C06-b → ORD-11 "a parked BigMessage is served, cleared or dropped on every path"; C11-a → TOK-12 (registry discipline); C11-b → ORD-6 "requests released after the write token was exchanged"; C12-a → ORD-8 "cancel before waiting for connSem"; C05-b was at first reported by ORD-2 for the wrong reason (an unrecognised comparison form) → comparisons are normalised and the clause "submitN advances only behind a nil write" was added; C10-b and C12-b were caught by rules that were not yet listed under their own property (TOK-1 added to C10, ORD-7 to C12). A second round (ids ending in -c/-d; each agent was told which changes were already taken for its property and asked for a different mechanism) produced 40 more. Not caught at first: C19-c (failure cleanup removes the final file) → ORD-9 "cleanup removes the spool file only"; C09-d (validator and encoder disagree on when the Will is enabled) → COD-7 guard agreement; C20-c (early return before the filter comparison) → MCK-1 "an expectation that was taken is compared"; C14-d (ReadBackoff case order) → ERR-5 converse clauses; C06-d (deadline re-armed only when the buffer is empty) → ORD-14 requires the buffered amount to cover the amount read; C10-c (progress baseline hoisted out of the retry loop) → ORD-13 clause for the payload retry; C04-d (marker saved for every non-PUBACK) → ORD-4 "marker Save only for PUBREC"; C11-c (callback removed but not answered) → TOK-13 "a removed callback is answered on every return"; C08-d (Ping returns another answer after its write failed) → ERR-7; C01-d/C05-d (volatile store keeps the caller's buffer) → OWN-9; C03-d (continuity test without the roll-over case) → ADP-8 sibling predicate; C16-d (gap test on the uncleaned list) → ADP-4 extended to every read after cleaning; C01-c, C02-d, C05-c, C06-c, C11-d, C12-c, C13-c, C16-c were caught by rules not yet listed under their own property (lists extended). The sub-agents also reported two genuine defects of the unchanged tree that they had to steer around (F17, F18; §5).""")
+out.append("""**First-pass misses and what they led to.** The table shows the state after strengthening. When the first round (ids ending in -a/-b) arrived, these were *not* yet caught by the rules that existed and led to new clauses, not to special cases: C07-b → ORD-4 "no acknowledgement left queued on an error return"; C02-b → ORD-4 "a packet is kept for retry only after a durable record change"; C06-b → ORD-11 "a parked BigMessage is served, cleared or dropped on every path"; C11-a → TOK-12 (registry discipline); C11-b → ORD-6 "requests released after the write token was exchanged"; C12-a → ORD-8 "cancel before waiting for connSem"; C05-b was at first reported by ORD-2 for the wrong reason (an unrecognised comparison form) → comparisons are normalised and the clause "submitN advances only behind a nil write" was added; C10-b and C12-b were caught by rules that were not yet listed under their own property (TOK-1 added to C10, ORD-7 to C12). A second round (ids ending in -c/-d; each agent was told which changes were already taken for its property and asked for a different mechanism) produced 40 more. Not caught at first: C19-c (failure cleanup removes the final file) → ORD-9 "cleanup removes the spool file only"; C09-d (validator and encoder disagree on when the Will is enabled) → COD-7 guard agreement; C20-c (early return before the filter comparison) → MCK-1 "an expectation that was taken is compared"; C14-d (ReadBackoff case order) → ERR-5 converse clauses; C06-d (deadline re-armed only when the buffer is empty) → ORD-14 requires the buffered amount to cover the amount read; C10-c (progress baseline hoisted out of the retry loop) → ORD-13 clause for the payload retry; C04-d (marker saved for every non-PUBACK) → ORD-4 "marker Save only for PUBREC"; C11-c (callback removed but not answered) → TOK-13 "a removed callback is answered on every return"; C08-d (Ping returns another answer after its write failed) → ERR-7; C01-d/C05-d (volatile store keeps the caller's buffer) → OWN-9; C03-d (continuity test without the roll-over case) → ADP-8 sibling predicate; C16-d (gap test on the uncleaned list) → ADP-4 extended to every read after cleaning; C01-c, C02-d, C05-c, C06-c, C11-d, C12-c, C13-c, C16-c were caught by rules not yet listed under their own property (lists extended). The sub-agents also reported two genuine defects of the unchanged tree that they had to steer around (F17, F18; §5). A third round (ids ending in -e/-f) asked for *subtle* changes in the functions that had received least attention (an equivalent-looking condition that differs on one boundary value, a clean-up moved across a statement it depended on, an error path that returns the right error but skips one duty, two sites that must agree and no longer do). 15 of its 40 were not caught at first: C09-e (Will Retain bit outside the Will guard) → COD-7 flags-describe-the-payload; C09-f (`IndexByte(s,0) > 0`) → COD-13; C06-e (length guard moved to the loop head) → COD-4 exact loop evaluation; C18-f (deferred close watching the wrong `err`) → ORD-7 failure-closes-the-connection; C16-e (Max checks before the gaps are dropped) → ADP-5 final-list clause; C16-f and C02-f (`List` filter) → COD-10 listed under C02/C16; C14-f (`nonNilIsAny` stops at a nil Unwrap) → ERR-4 tree walk; C02-e and C03-f (accept count off by one / from the first PUBREL) → ADP-9; C10-e (ramp-up state unbounded) → ERR-5; C10-f (toOffline waits before it interrupts) → ORD-6/TOK-14; C04-f (stale parked BigMessage) → ORD-11 listed under C04/C07; C08-f (Disconnect swallows a closed-connection write error) → ERR-7 covers Disconnect; C07-f (handshake clears pendingAck) → OWN-3 no longer lets a known function inherit the ownership of its callers. A syntactic mutation sweep (`mutation/`, 1 982 mutants of the four source files; 830 pass the pinned suite) was then used to look for what no agent had thought of: 438 of the 830 were caught when the sweep was first run, 631 after the clauses it led to (the third-round list in §3); the 199 that remain were read one by one and are listed with the reason in `mutation/survivors.tsv` (no-ops, independent statement order, capacity hints, message texts, defaults and tuning, misuse checks of the doubles, checks that are dead under a proven invariant).""")
 out.append("")
 open(D,'w').write(head+"\n".join(out)+"\n")
 print(n,own)
